@@ -17,6 +17,7 @@ import (
 	"sort"
 	"strings"
 	"sync"
+	"testing/synctest"
 
 	"github.com/gin-gonic/gin"
 	_ "github.com/prometheus/prometheus/discovery/install" // as cmd/kvass/main.go does
@@ -53,6 +54,9 @@ type Options struct {
 	PromHost string
 	// SAPath: --inject.kubernetes-sa-path of this process ("" = the command's default: none)
 	SAPath string
+	// NoSettle: return as soon as the command serves (both listeners taken) even if its start path is
+	// still running - only meaningful for a command that listens before it has finished starting
+	NoSettle bool
 }
 
 // Sidecar is one running sidecar instance ("process"): the real `kvass sidecar` command
@@ -252,7 +256,18 @@ func Start(opt Options) *Sidecar {
 	mu.Lock()
 	starting = nil
 	mu.Unlock()
+	// the real command listens last; one that listens earlier is still busy starting here
+	if inBubble.Load() && !opt.NoSettle {
+		synctest.Wait()
+	}
 	return s
+}
+
+// Settle waits until the command (and everything else in the bubble) is quiescent.
+func Settle() {
+	if inBubble.Load() {
+		synctest.Wait()
+	}
 }
 
 // SetClientTransport decides which transport the HTTP clients that pkg/scrape builds from now on get
